@@ -140,6 +140,7 @@ class Frame:
     gen: MColl | None = None
     loop_bases: list = field(default_factory=list)
     nonlocals: set = field(default_factory=set)
+    at_yield: Any = None  # body of the `with` statement that runs a @contextmanager generator (called at its `yield`)
 
 
 class Evaluator:
@@ -167,6 +168,7 @@ class Evaluator:
         self.steps = 0
         self.trace = self.new_coll("list")
         self.origins: dict = {}  # id-ish keys -> (fi, node) for diagnostics
+        self.shared: dict = {}  # id(expression of a module constant / class attribute) -> its one value
         self.cur: tuple = (None, None)
 
     # ------------------------------------------------------------------ helpers
@@ -342,10 +344,10 @@ class Evaluator:
                     return ("module", fq)
                 m = self.repo.modules.get(mod)
                 if m is not None and attr in m.constants:
-                    return self.eval_in_module(m, m.constants[attr])
+                    return self.eval_once(m, m.constants[attr])
                 return ("ext", fq)
             if name in module.constants:
-                return self.eval_in_module(module, module.constants[name])
+                return self.eval_once(module, module.constants[name])
         if name in ("True", "False", "None"):
             return ("const", {"True": True, "False": False, "None": None}[name])
         return ("builtin", name)
@@ -357,6 +359,19 @@ class Evaluator:
             return self.eval(e)
         finally:
             self.frames.pop()
+
+    def eval_once(self, m: ModuleInfo, e: ast.expr):
+        """Value of a module-level constant / class attribute: evaluated once per run, outside every loop and condition - an
+        object or collection created there is *shared* by everything that reads the name (state kept at class / module level)."""
+        key = id(e)
+        if key not in self.shared:
+            ctx, running, trys = self.ctx, self.running, self.trys
+            self.ctx, self.running, self.trys = [], [], []
+            try:
+                self.shared[key] = self.eval_in_module(m, e)
+            finally:
+                self.ctx, self.running, self.trys = ctx, running, trys
+        return self.shared[key]
 
     # ------------------------------------------------------------------ expressions
     def eval(self, e: ast.expr):
@@ -517,7 +532,7 @@ class Evaluator:
             if y[0] == "const" and y[1] is None:
                 if x[0] == "const":
                     return ("const", x[1] is None)
-                if x[0] in ("obj", "mcoll", "coll", "closure", "fluent", "class", "func", "bound", "tuple", "fstr", "exc", "stage"):
+                if x[0] in ("obj", "mcoll", "coll", "closure", "fluent", "class", "func", "bound", "tuple", "fstr", "exc", "stage", "exctype", "caught"):
                     return FALSE
                 if x[0] == "ite":
                     return c_or([c_and([x[1], self.is_(x[2], y)]), c_and([c_not(x[1]), self.is_(x[3], y)])])
@@ -546,6 +561,10 @@ class Evaluator:
         sa, sb = self.snapshot(a), self.snapshot(b)
         if sa == sb:
             return TRUE
+        if sa[0] == "tuple" and sb[0] == "tuple":
+            if len(sa[1]) != len(sb[1]):
+                return FALSE
+            return c_and([self.eq(x, y) for x, y in zip(sa[1], sb[1])])
         return ("cmp", "==", sa, sb)
 
     def order(self, name, a, b):
@@ -573,6 +592,11 @@ class Evaluator:
                     return TRUE
                 if all(kk[0] == "const" for kk, _v in table) and k[0] == "const":
                     return FALSE
+            stores = self.cond_table(self.heap_colls[container[1]])
+            if stores:
+                # the key is there iff it equals the key of one of the stores (that happened)
+                k = self.snapshot(x)
+                return self.reduce_cond(c_or([c_and([c, self.eq(kk, k)]) for kk, _v, c in stores]))
         c = self.snapshot(container)
         if c[0] == "coll" and not c[2]:
             return FALSE
@@ -588,6 +612,8 @@ class Evaluator:
                 return ("const", a[1] + b[1])
             if (a[0] in ("fstr",) or (a[0] == "const" and isinstance(a[1], str))) or (b[0] == "fstr" or (b[0] == "const" and isinstance(b[1], str))):
                 return self.mk_fstr([self.snapshot(a), self.snapshot(b)])
+            if _is_int(a) or _is_int(b):
+                return ("arith", "+", self.snapshot(a), self.snapshot(b))
             return ("concat", self.snapshot(a), self.snapshot(b))
         if isinstance(op, ast.Mod) and a[0] == "const" and isinstance(a[1], str):
             vals = list(b[1]) if b[0] == "tuple" else [b]
@@ -600,6 +626,10 @@ class Evaluator:
                         out.append(self.snapshot(vals[i]))
                 return self.mk_fstr(out)
         if isinstance(op, ast.Sub):
+            if a[0] == "const" and b[0] == "const" and _is_int(a) and _is_int(b):
+                return ("const", a[1] - b[1])
+            if _is_int(a) or _is_int(b):
+                return ("arith", "-", self.snapshot(a), self.snapshot(b))
             return ("setop", "-", self.snapshot(a), self.snapshot(b))
         if isinstance(op, ast.BitOr):
             return ("setop", "|", self.snapshot(a), self.snapshot(b))
@@ -630,7 +660,7 @@ class Evaluator:
                 return ("bound", v, m.fq)
             for c in self.repo.mro(o.cls):
                 if name in c.class_attrs:
-                    return self.eval_in_module(c.module, c.class_attrs[name])
+                    return self.eval_once(c.module, c.class_attrs[name])
             return self.problem(f"attribute {name} of {o.cls.name} unknown", node)
         if t == "class":
             ci = self.repo.classes[v[1]]
@@ -645,7 +675,7 @@ class Evaluator:
                 return ("func", m.fq)
             for c in self.repo.mro(ci):
                 if name in c.class_attrs:
-                    return self.eval_in_module(c.module, c.class_attrs[name])
+                    return self.eval_once(c.module, c.class_attrs[name])
             return self.problem(f"class attribute {ci.name}.{name} unknown", node)
         if t == "module":
             mod = self.repo.modules[v[1]]
@@ -672,6 +702,14 @@ class Evaluator:
                 if k == name:
                     return x
         return ("attr", v, name)
+
+    def getattr_value(self, v, name: str, node=None):
+        """`v.name` for any value (`getattr` plus the reading of `("attr", ...)` as a method of a non-object receiver)."""
+        v = self.reduce(v)
+        if v[0] == "ite":
+            a, b = self.getattr_value(v[2], name, node), self.getattr_value(v[3], name, node)
+            return a if a == b else ("ite", v[1], a, b)
+        return self.getattr(v, name, node)
 
     def e_Subscript(self, e, fr):
         v = self.eval(e.value)
@@ -711,6 +749,19 @@ class Evaluator:
                     return table[i[1]]
                 if set(table) == {True, False} and i[0] != "const":
                     return ("ite", self.truth(i), table[True], table[False])
+            stores = self.cond_table(self.heap_colls[v[1]])
+            if stores:
+                # the value of the last store (that happened) to an equal key
+                k = self.snapshot(i)
+                out = missing = ("index", self.snapshot(v), k)
+                for kk, val, c in stores:
+                    hit = self.reduce_cond(c_and([c, self.eq(kk, k)]))
+                    if hit == TRUE:
+                        out = val
+                    elif hit != FALSE:
+                        out = ("ite", hit, val, out)
+                if out is not missing:
+                    return out
         if v[0] == "ite":
             return ("ite", v[1], self.index(v[2], i), self.index(v[3], i))
         return ("index", self.snapshot(v), self.snapshot(i))
@@ -946,6 +997,20 @@ class Evaluator:
             return self.call_method(f[1], f[2], args, kwargs, node)
         if t == "partial":
             return self.call(f[1], [*f[2], *args], {**dict(f[3]), **kwargs}, node)
+        if t == "methodcaller" and len(args) == 1 and not kwargs:
+            # operator.methodcaller(name, *a, **k)(x) is x.name(*a, **k)
+            return self.call(self.getattr_value(args[0], f[1], node), list(f[2]), dict(f[3]), node)
+        if t == "attrgetter" and len(args) == 1 and not kwargs:
+            vals = []
+            for dotted in f[1]:
+                v = args[0]
+                for part in dotted.split("."):
+                    v = self.getattr_value(v, part, node)
+                vals.append(v)
+            return vals[0] if len(vals) == 1 else ("tuple", tuple(vals))
+        if t == "itemgetter" and len(args) == 1 and not kwargs:
+            vals = [self.index(args[0], k) for k in f[1]]
+            return vals[0] if len(vals) == 1 else ("tuple", tuple(vals))
         if t == "unbound" and args:
             return self.call_method(args[0], f[2], args[1:], kwargs, node)
         if t == "obj":
@@ -1001,7 +1066,7 @@ class Evaluator:
 
     def eval_default(self, d, module):
         if module is not None:
-            return self.eval_in_module(module, d)
+            return self.eval_once(module, d)  # a default value is created once, when the function is defined
         return self.eval(d)
 
     def call_function(self, fi: FuncInfo, args, kwargs, node):
@@ -1016,6 +1081,8 @@ class Evaluator:
             return ("stage", self.stages[fi.fq], (), tuple(sorted((k, self.snapshot(v)) for k, v in bound.items())))
         if fi.is_abstract:
             return self.effect_call(args[0] if args else NONE, fi.name, args[1:], kwargs, node)
+        if "contextmanager" in fi.decorators:
+            return ("ctxgen", fi.fq, tuple(args), tuple(sorted(kwargs.items())))
         if fi.is_classmethod and (not args or args[0][0] != "class"):
             args = [("class", fi.cls.fq), *args] if fi.cls is not None else args
         env = Env()
@@ -1185,8 +1252,38 @@ class Evaluator:
                     if i < len(args):
                         out.append(self.snapshot(args[i]))
                 return self.mk_fstr(out)
+            if name == "format" and not kwargs:
+                import string
+
+                try:
+                    fields = list(string.Formatter().parse(recv[1]))
+                except ValueError:
+                    fields = None
+                if fields is not None and all(spec in ("", None) and conv in (None, "s") for _l, _f, spec, conv in fields):
+                    out, auto, ok = [], 0, True
+                    for lit, fld, _spec, _conv in fields:
+                        out.append(("const", lit))
+                        if fld is None:
+                            continue
+                        if fld == "":
+                            k, auto = auto, auto + 1
+                        elif fld.isdigit():
+                            k = int(fld)
+                        else:
+                            ok = False
+                            break
+                        if k >= len(args):
+                            ok = False
+                            break
+                        out.append(self.snapshot(args[k]))
+                    if ok:
+                        return self.mk_fstr(out)
             if name == "format":
                 return ("opaque", "str.format", (recv, *map(self.snapshot, args)))
+        if t == "wrap" and recv[1] in WRAPPERS and name == "copy" and not args:
+            c = self.new_coll("set" if recv[1] in ("set", "frozenset") else "list")  # a fresh, mutable copy
+            self.add_item(c, recv, splat=True)
+            return ("mcoll", c.cid)
         if t in ("sym", "var", "index", "attr", "valof", "coll", "wrap", "setop", "get", "concat", "stage", "keys", "values", "items", "boolop", "inst"):
             r = self.pure_method(recv, name, args, kwargs, node)
             if r is not None:
@@ -1216,6 +1313,8 @@ class Evaluator:
             return out
         if name == "copy" and not a:
             return s
+        if name == "__contains__" and len(args) == 1:
+            return self.contains(recv, args[0])
         if name in ("issubset", "issuperset", "isdisjoint", "startswith", "endswith", "__contains__"):
             return ("cmp", name, s, a[0]) if a else None
         return None
@@ -1231,6 +1330,18 @@ class Evaluator:
         cond = c_and([e[1] for e in since if e[0] == "if"])
         new = make(cur)
         m.items = [("splat", new if cond == TRUE else ("ite", cond, new, cur))]
+
+    def delete_at(self, m: MColl, ref, i, node):
+        """`del xs[i]` / `xs.pop(i)` on a list: what remains is xs[:i] + xs[i+1:]; returns the removed element."""
+        cur = self.snapshot(ref)
+        pos = self.snapshot(i)
+        removed = ("index", cur, pos)
+        nxt = ("const", pos[1] + 1) if _is_int(pos) and pos[1] >= 0 else ("arith", "+", pos, ("const", 1))
+        if _is_int(pos) and pos[1] < 0:
+            self.problem("element removed at a position counted from the end", node)
+            return removed
+        self.replace_content(m, ref, lambda c: ("concat", ("slice", c, NONE, pos, NONE), ("slice", c, nxt, NONE, NONE)), node)
+        return removed
 
     def unique_key(self, item) -> bool:
         """The key of `d[k] = v` stored under binders cannot collide with the key of another element: k is the loop variable
@@ -1299,6 +1410,25 @@ class Evaluator:
                 return None
         return out
 
+    def cond_table(self, m: MColl):
+        """[(key term, value, condition of the store)] of a dict filled by plain stores outside loops with keys that are closed
+        terms (no loop variable), else None."""
+        if m.kind != "dict" or m.default_kind is not None:
+            return None
+        out = []
+        for it in m.items:
+            if it[0] == "elem" and it[1][0] == "pair":
+                pair, c = it[1], TRUE
+            elif it[0] == "gen" and it[1][0] == "pair" and all(b[0] == "if" for b in it[2]):
+                pair, c = it[1], c_and([b[1] for b in it[2]])
+            else:
+                return None
+            key = self.snapshot(pair[1])
+            if _has_tag(key, ("var", "opaque")):
+                return None
+            out.append((key, pair[2], c))
+        return out
+
     def const_table(self, m: MColl):
         """{constant key: value} of a dict that was only filled with constant keys outside loops, else None."""
         if m.kind != "dict" or not all(it[0] == "elem" and it[1][0] == "pair" and it[1][1][0] == "const" for it in m.items):
@@ -1355,6 +1485,8 @@ class Evaluator:
             return ("mcoll", c.cid)
         if name in ("sort", "reverse"):
             return NONE
+        if name in ("pop", "__delitem__") and len(args) == 1 and m.kind == "list" and not kwargs:
+            return self.delete_at(m, ref, args[0], node)
         if name in ("pop", "popitem", "clear", "__delitem__"):
             return self.problem(f"{name}() on a collection being built", node)
         r = self.pure_method(ref, name, args, kwargs, node)
@@ -1388,6 +1520,18 @@ class Evaluator:
         if name == "str" and len(a) == 1:
             s = self.snapshot(a[0])
             return s if s[0] == "fstr" or (s[0] == "const" and isinstance(s[1], str)) else ("str", s)
+        if name == "issubclass" and len(a) == 2 and a[0][0] == "exctype":
+            names = self.exc_type_names(a[1])
+            if names is not None:
+                return c_or([self.exc_is(a[0], n) for n in names])
+        if name == "isinstance" and len(a) == 2 and a[0][0] == "caught":
+            names = self.exc_type_names(a[1])
+            if names is not None:
+                return c_or([self.exc_is(self.class_of_caught(a[0]), n) for n in names])
+        if name == "isinstance" and len(a) == 2 and a[0] == NONE and self.exc_type_names(a[1]) is not None:
+            return FALSE
+        if name == "type" and len(a) == 1 and a[0][0] == "caught":
+            return self.class_of_caught(a[0])
         if name == "isinstance" and len(a) == 2:
             if a[0][0] == "obj" and a[1][0] == "class":
                 return ("const", self.repo.is_subclass(self.heap_objs[a[0][1]].cls, a[1][1]))
@@ -1442,6 +1586,23 @@ class Evaluator:
             return self.problem("super() outside a method", node)
         return ("opaque", f"builtin {name}", tuple(self.snapshot(x) for x in a))
 
+    def filter_like(self, pred, iterable, negate: bool, node):
+        m = self.new_coll("iter")
+        fr = self.frames[-1]
+        tgt = ast.Name(id=f"__filter{self.fresh()}", ctx=ast.Store())
+
+        def body():
+            x = fr.env.vars[tgt.id]
+            n = len(self.ctx)
+            t = self.truth(self.call(pred, [x], {}, node)) if pred != NONE else self.truth(x)
+            self.ctx.append(("if", c_not(t) if negate else t))
+            self.add_item(m, x)
+            del self.ctx[n:]
+
+        self.iterate(iterable, tgt, fr, body, node)
+        fr.env.vars.pop(tgt.id, None)
+        return ("mcoll", m.cid)
+
     def call_ext(self, dotted, args, kwargs, node):
         a = [self.snapshot(x) for x in args]
         short = dotted.split(".")[-1]
@@ -1452,8 +1613,22 @@ class Evaluator:
             return ("mcoll", c.cid)
         if dotted in ("itertools.chain.from_iterable",) and len(a) == 1:
             return ("flatten", a[0])
+        if dotted == "itertools.filterfalse" and len(args) == 2 and not kwargs:
+            return self.filter_like(args[0], args[1], True, node)
+        if dotted == "contextlib.suppress" and not kwargs:
+            names = self.exc_type_names(("tuple", tuple(args)))
+            if names is not None:
+                return ("suppress", names)
+        if dotted == "contextlib.nullcontext" and len(args) <= 1 and not kwargs:
+            return ("nullcontext", args[0] if args else NONE)
         if dotted == "functools.partial" and args:
             return ("partial", args[0], tuple(args[1:]), tuple(sorted(kwargs.items())))
+        if dotted == "operator.methodcaller" and args and args[0][0] == "const" and isinstance(args[0][1], str):
+            return ("methodcaller", args[0][1], tuple(args[1:]), tuple(sorted(kwargs.items())))
+        if dotted == "operator.attrgetter" and args and not kwargs and all(x[0] == "const" and isinstance(x[1], str) for x in args):
+            return ("attrgetter", tuple(x[1] for x in args))
+        if dotted == "operator.itemgetter" and args and not kwargs:
+            return ("itemgetter", tuple(args))
         if dotted == "dataclasses.replace" and args and args[0][0] == "obj":
             src = self.heap_objs[args[0][1]]
             o = Obj(self.fresh(), src.cls, dict(src.fields))
@@ -1495,6 +1670,9 @@ class Evaluator:
 
     def s_Expr(self, s, fr):
         if isinstance(s.value, ast.Constant):
+            return False
+        if isinstance(s.value, ast.Yield) and fr.at_yield is not None:
+            fr.at_yield(self.eval(s.value.value) if s.value.value is not None else NONE)
             return False
         if isinstance(s.value, (ast.Yield, ast.YieldFrom)):
             y = s.value
@@ -1681,12 +1859,264 @@ class Evaluator:
         self.problem("while loop", s)
         return False
 
+    # with statements --------------------------------------------------------
     def s_With(self, s, fr):
-        self.problem("with statement", s)
-        return self.block(s.body, fr)
+        return self.with_items(s, 0, fr)
+
+    def with_items(self, s, i, fr) -> bool:
+        """`with m: body` is  v = m.__enter__(); try: body / except BaseException as e: if not m.__exit__(type(e), e, tb): raise /
+        else: m.__exit__(None, None, None).  The exception classes that `__exit__` suppresses are read off a side-effect free trial
+        evaluation of `__exit__` on a symbolic exception; then the body runs like the body of `try ... except <those classes>` and
+        `__exit__` is evaluated once per way of leaving the body."""
+        if i == len(s.items):
+            return self.block(s.body, fr)
+        item = s.items[i]
+        mgr = self.reduce(self.eval(item.context_expr))
+
+        def run_body() -> bool:
+            return self.with_items(s, i + 1, fr)
+
+        tid = self.try_ids.setdefault((id(s), i), len(self.try_ids) + 1)
+        if mgr[0] == "nullcontext":
+            if item.optional_vars is not None:
+                self.bind(item.optional_vars, mgr[1], fr)
+            return run_body()
+        if mgr[0] == "suppress":
+            if item.optional_vars is not None:
+                self.bind(item.optional_vars, NONE, fr)
+            n = len(self.ctx)
+            self.trys.append((tid, mgr[1]))
+            nex = len(fr.exits)
+            run_body()
+            self.trys.pop()
+            del self.ctx[n:]
+            for _kind, cond, _d in list(fr.exits[nex:]):
+                self.ctx.append(("if", c_not(cond)))
+            return False
+        if mgr[0] == "ctxgen":
+            return self.with_generator(s, item, mgr, fr, run_body)
+        enter = exit_ = None
+        if mgr[0] == "obj":
+            cls = self.heap_objs[mgr[1]].cls
+            enter, exit_ = self.repo.lookup_method(cls, "__enter__"), self.repo.lookup_method(cls, "__exit__")
+        inherited_enter = enter is None and exit_ is not None and any(b.split(".")[-1] in ("AbstractContextManager", "ContextDecorator") for b in self.repo.external_bases(cls))
+        if (enter is None and not inherited_enter) or exit_ is None:
+            self.problem("with statement over a context manager that is not defined in the analysed code", s)
+            return run_body()
+        v = mgr if enter is None else self.call_function(enter, [mgr], {}, s)  # AbstractContextManager.__enter__ returns self
+        if item.optional_vars is not None:
+            self.bind(item.optional_vars, v, fr)
+        types = self.probe_exit(exit_, mgr, tid, s)
+        if types is None:
+            self.problem("with statement whose __exit__ suppresses exceptions under a condition that is not a test of the exception class", s)
+            return run_body()
+        tb = ("opaque", "traceback", ())
+        n = len(self.ctx)
+        if types:
+            self.trys.append((tid, types))
+        nex_body = len(fr.exits)
+        done = run_body()
+        if types:
+            self.trys.pop()
+        body_exits = list(fr.exits[nex_body:])
+        del self.ctx[n:]
+        # left without an exception
+        if types:
+            self.ctx.append(("if", c_not(("raised", tid, types))))
+        self.call_function(exit_, [mgr, NONE, NONE, NONE], {}, s)
+        del self.ctx[n:]
+        # left by an exception of a suppressed class
+        if types:
+            self.ctx.append(("if", ("raised", tid, types)))
+            self.call_function(exit_, [mgr, ("exctype", tid, types, ()), ("caught", tid, types), tb], {}, s)
+            del self.ctx[n:]
+        # left by any other exception (it propagates once __exit__ is done)
+        if types != ("BaseException",):
+            other = ("not " + "|".join(types),) if types else ("BaseException",)
+            self.ctx.append(("if", ("raised", tid, other)))
+            nex = len(fr.exits)
+            self.call_function(exit_, [mgr, ("exctype", tid, (), types), ("caught", tid, other), tb], {}, s)
+            del fr.exits[nex:]
+            del self.ctx[n:]
+        for _kind, cond, _d in body_exits:
+            self.ctx.append(("if", c_not(cond)))
+        return done and not types
+
+    def with_generator(self, s, item, mgr, fr, run_body) -> bool:
+        """`with f(..): body` for a `@contextmanager` generator function f: the body runs where f yields."""
+        fi = self.repo.funcs[mgr[1]]
+        if len(self.frames) > MAX_DEPTH or any(f.fi is not None and f.fi.fq == fi.fq for f in self.frames):
+            self.problem("recursion / call depth bound reached", s)
+            return run_body()
+        env = Env()
+        if not self.bind_params(fi.node.args, list(mgr[2]), dict(mgr[3]), env, fi.module, s):
+            self.problem("with statement: the context manager call does not bind", s)
+            return run_body()
+        fr2 = Frame(fi, fi.module, fi.cls, len(self.ctx), env)
+        yields = [0]
+
+        def at_yield(v) -> None:
+            yields[0] += 1
+            if item.optional_vars is not None:
+                self.bind(item.optional_vars, v, fr)
+            self.frames.append(fr)
+            try:
+                run_body()
+            finally:
+                self.frames.pop()
+
+        fr2.at_yield = at_yield
+        self.frames.append(fr2)
+        try:
+            self.block(fi.node.body, fr2)
+        finally:
+            self.frames.pop()
+            del self.ctx[fr2.base:]
+        self.propagate_raises(fr2)
+        if yields[0] != 1:
+            self.problem("@contextmanager function that does not yield exactly once on the evaluated path", s)
+        return False
+
+    def exc_type_names(self, v):
+        v = self.reduce(v)
+        if v[0] == "builtin":
+            return (v[1],)
+        if v[0] == "class":
+            return (self.repo.classes[v[1]].name,)
+        if v[0] == "ext":
+            return (v[1].split(".")[-1],)
+        if v[0] == "tuple":
+            out: list = []
+            for x in v[1]:
+                names = self.exc_type_names(x)
+                if names is None:
+                    return None
+                out.extend(names)
+            return tuple(out)
+        return None
+
+    @staticmethod
+    def class_of_caught(c):
+        """("exctype", ...) of a ("caught", try id, classes) value; classes = ("not A|B",) says what it is not."""
+        types = c[2]
+        if len(types) == 1 and types[0].startswith("not "):
+            return ("exctype", c[1], (), tuple(types[0][4:].split("|")))
+        return ("exctype", c[1], types if types != ("BaseException",) else (), ())
+
+    @staticmethod
+    def exc_is(exctype, name: str):
+        """Condition `issubclass(<class of the exception in flight>, name)`; exctype = ("exctype", try id, classes the exception is
+        known to be an instance of one of, classes it is known not to be an instance of)."""
+        import builtins
+
+        _t, tid, pos, neg = exctype
+
+        def cls(n):
+            c = getattr(builtins, n, None)
+            return c if isinstance(c, type) and issubclass(c, BaseException) else None
+
+        if name == "BaseException":
+            return TRUE
+        if name in neg:
+            return FALSE
+        c = cls(name)
+        if c is not None and any(cls(x) is not None and issubclass(c, cls(x)) for x in neg):
+            return FALSE
+        if len(pos) == 1:
+            if pos[0] == name:
+                return TRUE
+            p = cls(pos[0])
+            if p is not None and c is not None:
+                if issubclass(p, c):
+                    return TRUE
+                if not issubclass(c, p):
+                    return FALSE  # unrelated builtin classes
+        return ("raised", tid, (name,))
+
+    def probe_exit(self, exit_, mgr, tid, node):
+        """The exception classes `mgr.__exit__` suppresses: a tuple of class names (() = none, ("BaseException",) = all), or None
+        when the answer is not a test of the exception class.  The trial evaluation leaves no trace in the state."""
+        saved = self.save_state()
+        try:
+            r = self.call_function(exit_, [mgr, ("exctype", tid, (), ()), ("caught", tid, ("BaseException",)), ("opaque", "traceback", ())], {}, node)
+            cond = self.truth(self.reduce(r)) if isinstance(r, tuple) and r else None
+            hard = len(self.skipped) > len(saved["skipped"])
+        finally:
+            self.restore_state(saved)
+        if cond is None or hard:
+            return None
+        if cond == FALSE:
+            return ()
+        if cond == TRUE:
+            return ("BaseException",)
+        parts = cond[1] if cond[0] == "or" else (cond,)
+        out: list = []
+        for c in parts:
+            if c[0] != "raised" or c[1] != tid:
+                return None
+            out.extend(x for x in c[2] if x not in out)
+        return tuple(out)
+
+    def save_state(self) -> dict:
+        return {
+            "objs": {k: dict(o.fields) for k, o in self.heap_objs.items()},
+            "colls": {k: (list(m.items), set(m.filled_in)) for k, m in self.heap_colls.items()},
+            "closures": set(self.closures),
+            "problems": list(self.problems),
+            "skipped": list(self.skipped),
+            "reads": list(self.reads),
+            "ctx": list(self.ctx),
+            "cut": set(self.cut_loops),
+            "origins": dict(self.origins),
+            "shared": dict(self.shared),
+            "trys": list(self.trys),
+            "running": list(self.running),
+            "frames": [(f, len(f.exits), len(f.returns), dict(f.env.vars), f.env) for f in self.frames],
+            "nframes": len(self.frames),
+        }
+
+    def restore_state(self, st: dict) -> None:
+        for k in list(self.heap_objs):
+            if k not in st["objs"]:
+                del self.heap_objs[k]
+            else:
+                self.heap_objs[k].fields = dict(st["objs"][k])
+        for k in list(self.heap_colls):
+            if k not in st["colls"]:
+                del self.heap_colls[k]
+            else:
+                self.heap_colls[k].items = list(st["colls"][k][0])
+                self.heap_colls[k].filled_in = set(st["colls"][k][1])
+        for k in list(self.closures):
+            if k not in st["closures"]:
+                del self.closures[k]
+        self.problems[:] = st["problems"]
+        self.skipped[:] = st["skipped"]
+        self.reads[:] = st["reads"]
+        self.ctx[:] = st["ctx"]
+        self.cut_loops = set(st["cut"])
+        self.origins = dict(st["origins"])
+        self.shared = dict(st["shared"])
+        self.trys[:] = st["trys"]
+        self.running[:] = st["running"]
+        del self.frames[st["nframes"]:]
+        for f, nex, nret, env_vars, env in st["frames"]:
+            del f.exits[nex:]
+            del f.returns[nret:]
+            f.env = env
+            f.env.vars = dict(env_vars)
 
     def s_Delete(self, s, fr):
-        self.problem("del statement", s)
+        for t in s.targets:
+            if isinstance(t, ast.Subscript) and not isinstance(t.slice, ast.Slice):
+                o = self.eval(t.value)
+                if o[0] == "mcoll" and self.heap_colls[o[1]].kind == "list":
+                    self.delete_at(self.heap_colls[o[1]], o, self.eval(t.slice), s)
+                    continue
+            if isinstance(t, ast.Name) and t.id in fr.env.vars:
+                del fr.env.vars[t.id]  # the name is gone; the value is untouched
+                continue
+            self.problem("del statement", s)
         return False
 
     def s_Try(self, s, fr):
@@ -1702,8 +2132,10 @@ class Evaluator:
         types = tuple(types)
         n = len(self.ctx)
         self.trys.append((tid, types))
+        nex_body = len(fr.exits)
         t_body = self.block(s.body, fr)
         self.trys.pop()
+        body_exits = list(fr.exits[nex_body:])
         body_env = dict(fr.env.vars)
         del self.ctx[n:]
         if s.orelse:
@@ -1722,9 +2154,24 @@ class Evaluator:
                 self.ctx.append(("if", c_not(cond)))
         if s.finalbody:
             self.block(s.finalbody, fr)
+        # what follows the statement only happens when the body was not left by continue / break / return
+        for _kind, cond, _d in body_exits:
+            self.ctx.append(("if", c_not(cond)))
         if t_body and not s.handlers:
             return True
         return False
+
+
+def _has_tag(t, tags) -> bool:
+    if isinstance(t, tuple) and t:
+        if t[0] in tags:
+            return True
+        return any(_has_tag(x, tags) for x in t if isinstance(x, tuple))
+    return False
+
+
+def _is_int(v) -> bool:
+    return v[0] == "const" and isinstance(v[1], int) and not isinstance(v[1], bool)
 
 
 def _own(fnode):
